@@ -104,20 +104,20 @@ func parseRangeHeader(s string) (*ObjectRangeRequest, error) {
 	if start == "" {
 		o.FromEnd = true
 
-		i, err := strconv.ParseInt(end, 10, 64)
+		i, err := parseRangePos(end)
 		if err != nil {
 			return nil, ErrInvalidRange
 		}
 		o.End = i
 
 	} else {
-		i, err := strconv.ParseInt(start, 10, 64)
+		i, err := parseRangePos(start)
 		if err != nil || i < 0 {
 			return nil, ErrInvalidRange
 		}
 		o.Start = i
 		if end != "" {
-			i, err := strconv.ParseInt(end, 10, 64)
+			i, err := parseRangePos(end)
 			if err != nil || o.Start > i {
 				return nil, ErrInvalidRange
 			}
@@ -128,4 +128,16 @@ func parseRangeHeader(s string) (*ObjectRangeRequest, error) {
 	}
 
 	return &o, nil
+}
+
+// parseRangePos parses a byte position of a Range header, which is a sequence
+// of digits; strconv.ParseInt alone also accepts a sign ("bytes=0--0",
+// "bytes=+1-+2").
+func parseRangePos(s string) (int64, error) {
+	for i := 0; i < len(s); i++ {
+		if s[i] < '0' || s[i] > '9' {
+			return 0, ErrInvalidRange
+		}
+	}
+	return strconv.ParseInt(s, 10, 64)
 }
